@@ -563,6 +563,11 @@ class Circuit(Unitary, StateVectorMap, Collection[Operation]):
         perm_point = lambda p: CircuitPoint(p.cycle, perm[p.qudit])
         perm_point_or_none = lambda p: perm_point(p) if p is not None else p
 
+        self._radixes = tuple(
+            self._radixes[perm.index(q)]
+            for q in range(self.num_qudits)
+        )
+
         self._graph_info = {
             (min(perm[e[0]], perm[e[1]]), max(perm[e[0]], perm[e[1]])): i
             for e, i in self._graph_info.items()
